@@ -155,6 +155,8 @@ func ruleR11(c *Ctx) *RuleResult {
 					site = &linkSite{form: "elem", owner: addr.Args[0].Args[0].Args[0], child: val, desc: "Children[i]="}
 				case addr.Op == "fa" && addr.Leaf == "Children":
 					site = &linkSite{form: "slice", owner: addr.Args[0], child: val, desc: "Children="}
+				case addr.Op == "φ" && isLinkCursor(gc, addr):
+					site = &linkSite{form: "linkcursor", child: val, desc: "*link="}
 				}
 				if site == nil {
 					continue
@@ -346,6 +348,32 @@ func checkLinkSite1(c *Ctx, gc *GCNF, s *linkSite) string {
 		return where
 	case "slice":
 		return checkChildrenSlice(c, gc, s)
+	case "linkcursor":
+		// a descent that carries the address of the link it follows (link := &tree.Root; … link = &node.Left) next to the
+		// node that owns it: the new occupant's Parent is the owner variable, and on every entry into / round of the loop
+		// the two are assigned together
+		link := g.Effects[s.idx].Args[0]
+		cs := noEpoch(y)
+		for _, ef := range g.Effects {
+			if !storeToField(ef, "Parent") || noEpoch(ef.Args[0].Args[0]) != cs {
+				continue
+			}
+			v := ef.Args[1]
+			if v.Op != "φ" {
+				continue
+			}
+			var k1, j1, k2, j2 int
+			fmt.Sscanf(link.Leaf, "%d.%d", &k1, &j1)
+			fmt.Sscanf(v.Leaf, "%d.%d", &k2, &j2)
+			if k1 != k2 {
+				continue
+			}
+			if why := linkCursorPairs(gc, k1, j1, j2); why != "" {
+				return s.desc + shortTerm(y) + ": " + why
+			}
+			return ""
+		}
+		return where
 	}
 	return "unrecognised link form " + s.form
 }
@@ -790,4 +818,57 @@ func parentStoreOfReread(s *linkSite) bool {
 		}
 	}
 	return false
+}
+
+// isLinkCursor: the loop variable φ:k.j only ever holds the address of a child link or of the root link.
+func isLinkCursor(gc *GCNF, phi *Term) bool {
+	var k, j int
+	if n, _ := fmt.Sscanf(phi.Leaf, "%d.%d", &k, &j); n != 2 {
+		return false
+	}
+	n := 0
+	for _, g := range gc.GCs {
+		if g.Exit.Op != "goto" || g.Exit.Leaf != itoa(k) || j >= len(g.Exit.Args) {
+			continue
+		}
+		a := g.Exit.Args[j]
+		if a.String() == phi.String() {
+			continue
+		}
+		if !isLinkAddr(a) {
+			return false
+		}
+		n++
+	}
+	return n > 0
+}
+
+func isLinkAddr(a *Term) bool {
+	switch {
+	case a.Op == "fa" && (a.Leaf == "Left" || a.Leaf == "Right" || a.Leaf == "Root"):
+		return true
+	case a.Op == "ia" && len(a.Args) == 2 && a.Args[0].Op == "fa" && a.Args[0].Leaf == "Children":
+		return true
+	}
+	return false
+}
+
+// linkCursorPairs: on every path into cut k the link variable (slot jl) and the owner variable (slot jo) are assigned
+// together: (&tree.Root, nil), (&X.Left|Right, X), (&X.Children[i], X), or both carried over unchanged.
+func linkCursorPairs(gc *GCNF, k, jl, jo int) string {
+	for _, g := range gc.GCs {
+		if g.Exit.Op != "goto" || g.Exit.Leaf != itoa(k) || jl >= len(g.Exit.Args) || jo >= len(g.Exit.Args) {
+			continue
+		}
+		l, o := g.Exit.Args[jl], g.Exit.Args[jo]
+		switch {
+		case l.Op == "φ" && l.Leaf == fmt.Sprintf("%d.%d", k, jl) && o.Op == "φ" && o.Leaf == fmt.Sprintf("%d.%d", k, jo):
+		case l.Op == "fa" && l.Leaf == "Root" && knownNil(g, o):
+		case l.Op == "fa" && (l.Leaf == "Left" || l.Leaf == "Right") && sameValue(g, l.Args[0], o):
+		case l.Op == "ia" && len(l.Args) == 2 && l.Args[0].Op == "fa" && l.Args[0].Leaf == "Children" && sameValue(g, l.Args[0].Args[0], o):
+		default:
+			return fmt.Sprintf("the descent continues through link %s with owner %s", trunc(noEpoch(l), 100), trunc(noEpoch(o), 100))
+		}
+	}
+	return ""
 }
